@@ -19,6 +19,8 @@ CONSTANTS
   ClearValRevs = TRUE
   GenMode = "none"
 INVARIANT RevertNeverFails
+INVARIANT AbsentIsZero
+INVARIANT StatIsRecount
 PROPERTY RevertRestores
 VIEW View
 CHECK_DEADLOCK FALSE
@@ -32,7 +34,7 @@ CONSTANTS
   MaxOps = %d
   Rich = %s
   ClearValRevs = TRUE
-  GenMode = "leaf"
+  GenMode = "%s"
 CONSTRAINT Leaf
 CHECK_DEADLOCK FALSE
 """
@@ -72,11 +74,15 @@ def generate(ctx):
     ctx.cov["design_violation"] = m.violated
     if getattr(m, "zero_actions", None):
         ctx.cov["coverage_zero_actions"] = m.zero_actions
-    # G1: bounded exhaustive, reduced alphabet
-    g1 = ctx.tlc_must("Journal", G_CFG % ("1", "1", 5 if quick else 6, '"reduced"'), name="G1_bounded", timeout=1500)
-    # G1b: bounded exhaustive, validators with delegation lists (two delegators, one validator)
-    g1b = ctx.tlc_must("Journal", G_CFG % ("1, 2", "1", 5 if quick else 6, '"deleg"'), name="G1_deleg", timeout=1500)
-    for g in (g1, g1b):
+    # G1: bounded exhaustive over four small alphabets; every behaviour (of any length up to the bound) that ends in a Revert
+    g1s = [("1", "1", 6 if quick else 7, "reduced"),      # accounts + validator + withdraw queue
+           ("1, 2", "1", 6 if quick else 7, "deleg"),     # validator record with two delegators
+           ("3", "1", 5 if quick else 6, "life"),         # life cycle of an account that does not exist initially
+           ("1", "1", 5 if quick else 6, "life"),         # life cycle of a funded account
+           ("1", "1", 6 if quick else 8, "store")]        # one storage slot across transaction boundaries
+    for accts, vals, d, alpha in g1s:
+        g = ctx.tlc_must("Journal", G_CFG % (accts, vals, d, '"%s"' % alpha, "revert"), name="G1_%s_%s" % (alpha, accts.replace(", ", "")),
+                         timeout=1500)
         for v in g.printed:
             if isinstance(v, dict) and v.get("kind") == "B":
                 behs.append(v["h"])
@@ -84,7 +90,7 @@ def generate(ctx):
     # G2: simulation over the rich alphabet
     depth = 22 if quick else 30
     num = 100 if quick else 1000
-    g2 = ctx.tlc_must("Journal", G_CFG % ("1, 2", "1, 2", depth, '"rich"'), name="G2_simulate", timeout=1500,
+    g2 = ctx.tlc_must("Journal", G_CFG % ("1, 2, 3", "1, 2", depth, '"rich"', "leaf"), name="G2_simulate", timeout=1500,
                       simulate={"num": num}, depth=depth + 1)
     # in simulation mode TLC evaluates the constraint on every candidate successor, so the last step fans out:
     # keep a seeded sample
